@@ -128,7 +128,7 @@ class Run:
             'rule': 'one case per (obligation, specialisation); an obligation is non-trivial if it has >= 1 feasible path reaching its postcondition (vacuity guard)',
             'known': [o.to_json() for o in known],
             'undecided_list': [o.to_json() for o in undecided[:50]],
-            'violations_list': [o.to_json() for o in violations[:50]],
+            'violations_list': [o.to_json() for o in violations[:2000]],
         }
         cov.update(self.extra)
         ev = {'property_id': self.prop, 'tier': self.tier, 'seed': self.seed, 'level': self.category, 'coverage': cov,
@@ -174,3 +174,15 @@ def run_replay(path, root='/repo', timeout=120):
     except subprocess.TimeoutExpired:
         return None, 'timeout'
     return r.returncode, (r.stdout + r.stderr)[-2000:]
+
+
+def replay_many(prop, items, root='/repo', workers=16):
+    """items: list of (oid, source, header) -> {oid: (path, rc, output)}; replays run in parallel subprocesses"""
+    from concurrent.futures import ThreadPoolExecutor
+    paths = {oid: write_replay(prop, oid, src, header=header) for oid, src, header in items}
+
+    def one(oid):
+        rc, out = run_replay(paths[oid], root=root)
+        return oid, (paths[oid], rc, out)
+    with ThreadPoolExecutor(max_workers=workers) as ex:
+        return dict(ex.map(one, list(paths)))
